@@ -152,11 +152,11 @@ func cmdCheck(args []string) {
 			ev.Obligations++
 		}
 		for _, o := range r.Obls {
-			if o.Kind == "vacuity" {
+			if o.Kind == "vacuity" || o.Kind == "cover" {
 				ev.VacuityChecks++
 				if o.Status == "unsat" {
 					o2 := *o
-					o2.Model = "the precondition (requires + assumed facts) of this function is unsatisfiable: every obligation would hold vacuously"
+					o2.Model = "vacuity guard: this point (function entry or a return) is unreachable under the assumptions of the VC (contradictory requires / assumed contracts, or dead code): obligations behind it would hold vacuously"
 					viols = append(viols, violation{Obl: &o2, NoInput: true})
 				}
 				continue
